@@ -25,6 +25,7 @@ MANIFEST = {
             "Python is left out of comparisons for values it refuses to hold. A code base that contributes < 80% of the vectors makes the run inconclusive.",
 }
 MANIFEST["text"] += " Python additionally performs the round trip on live objects: the decoder reads the serializer's own fragments without a copy and the result is serialized again. The C option enable_override_variable_array_capacity (without any override defined) is one of the option sets."
+MANIFEST["text"] += ' The big-union set (more than 256 options) is compared across C, C++14 and Python.'
 
 VLA_HPP = r'''
 #pragma once
